@@ -677,7 +677,7 @@ func childJob(p json.RawMessage) json.RawMessage {
 		panic(err)
 	}
 	runHistory(&c)
-	if (c.Panic || c.Hang) && os.Getenv("C15_NOSHRINK") == "" {
+	if c.Panic && os.Getenv("C15_NOSHRINK") == "" { // a hang costs 2 s per attempt: reported as found
 		s := shrink(c)
 		if s.Panic || s.Hang {
 			s.Kind = c.Kind + "-shrunk"
